@@ -74,6 +74,7 @@ type Instance struct {
 	cacheEpoch int
 	cacheSnap  []byte
 	loadStep   int // scheduler step at which the current incarnation started
+	rootsBuf   []byte // buffer the harness passes to SetRootsFromPEM and reuses
 	staged     map[string][]byte // members of the staging bundle the current round built
 	timeGuardHit bool
 	timeGuardInc int
@@ -214,6 +215,9 @@ type Item struct {
 	// item of such a group, every pre_certificate the entry was submitted with.
 	wrapperOf *Item
 	wrappers  [][]byte
+	// altIssuers: other valid chains the same entry was submitted with (the
+	// stored leaf carries the fingerprints of whichever came first)
+	altIssuers [][][]byte
 }
 
 // acceptsPreCert: pre is a pre_certificate this entry was submitted with.
